@@ -393,6 +393,11 @@ func (a *Analyzer) analyzeResultObject(info *ConstructorInfo, structType reflect
 			continue
 		}
 
+		// A field is registered either as a named service or as a group member
+		if tagInfo.Name != "" && tagInfo.Group != "" {
+			return fmt.Errorf("field %s cannot have both a name tag (%q) and a group tag (%q)", field.Name, tagInfo.Name, tagInfo.Group)
+		}
+
 		ret := ReturnInfo{
 			Type:  field.Type,
 			Name:  field.Name,
